@@ -376,6 +376,7 @@ pub fn run_c06(tier: &str, sink: &Sink) -> Out6 {
     fam.extend(multiline_family());
     fam.extend(multibyte_family());
     fam.extend(long_family());
+    fam.extend(long_multiline_family());
     // limit numbers in every range form
     for b in ["900719925474098", "900719925474099", "900719925474100", "18446744073709551615", "18446744073709551616"] {
         for op in ["", "=", "<", "<=", ">", ">=", "~", "~>", "^"] {
